@@ -245,11 +245,9 @@ def finish (base nd : Nat) (ds : List Nat) (x : Int) : List Nat × Int :=
   let r := if ds.length > nd ∧ 2 * ds.getD nd 0 ≥ base then roundUp base (ds.take nd) x else (ds.take nd, x)
   (stripTrailingZeros r.1, r.2)
 
-/-- mpf_get_str (NULL, &exp, base, nd0, u) for 2 ≤ base ≤ 62: digit values (without the sign) and exponent -/
-def get_digits (base nd0 : Nat) (u : Mpf.F) : List Nat × Int :=
-  let nd := effDigits base u.prec nd0                                            -- :149-151
-  if u.d.length = 0 then ([], 0) else                                            -- :161-167
-  let nln := nLimbsNeeded base nd                                                -- :180
+/-- get_str.c:180-250 for a non-zero operand: the integer whose digits are developed and the power of the base
+    it was scaled by (`(N, s)`: |u| ≈ N · base^(-s)); `nln` = n_limbs_needed -/
+def scaledInt (base nln : Nat) (u : Mpf.F) : Nat × Int :=
   let up := Mpf.top nln u.d                                                      -- :191-195 / :228-232
   let un := up.length
   let cb := Radix.cpbeBits base
@@ -259,17 +257,22 @@ def get_digits (base nd0 : Nat) (u : Mpf.F) : List Nat × Int :=
     let pw := powHigh0 base e nln                                                -- :199
     let t := val up * pw.1                                                       -- :200-205
     let off : Int := (un : Int) - u.exp - (pw.2 : Int)                           -- :206
-    let N := if off < 0 then t * B ^ (-off).toNat else t / B ^ off.toNat         -- :207-214
-    let ds := Radix.digitsOf base N
-    finish base nd ds ((ds.length : Int) - (e : Int))                            -- :216
+    (if off < 0 then t * B ^ (-off).toNat else t / B ^ off.toNat, (e : Int))     -- :207-214, 216
   else
     let less := (u.exp - (nln : Int)).toNat                                      -- :225
     let e := Radix.mulTrunc (64 * less) cb                                       -- :226
     let pw := powHigh0 base e nln                                                -- :236
     let xn := nln + (less - pw.2)                                                -- :238
     let x := val up * B ^ (xn - un)                                              -- :239-242
-    let ds := Radix.digitsOf base (x / pw.1)                                     -- :245-248
-    finish base nd ds ((ds.length : Int) + (e : Int))                            -- :250
+    (x / pw.1, -(e : Int))                                                       -- :245-248, 250
+
+/-- mpf_get_str (NULL, &exp, base, nd0, u) for 2 ≤ base ≤ 62: digit values (without the sign) and exponent -/
+def get_digits (base nd0 : Nat) (u : Mpf.F) : List Nat × Int :=
+  let nd := effDigits base u.prec nd0                                            -- :149-151
+  if u.d.length = 0 then ([], 0) else                                            -- :161-167
+  let sc := scaledInt base (nLimbsNeeded base nd) u                              -- :180-250
+  let ds := Radix.digitsOf base sc.1                                             -- mpn_get_str
+  finish base nd ds ((ds.length : Int) - sc.2)                                   -- :216 / :250, :253-291
 
 /-- the returned string and exponent; `base` in 2..62 or -36..-2 -/
 def get_str (base : Int) (nd0 : Nat) (u : Mpf.F) : List Nat × Int :=
